@@ -166,7 +166,7 @@ SPEC = PropertySpec(
     modules=MODULES,
     run=run,
     replay=replay,
-    rule=('random trajectories (1-7 frames x 1-4 atoms; coordinates on k/64, k/7, k/10, k/3 grids in [-2,3], samples forced onto 0, 1, '
+    rule=('random trajectories (3% on a long thin cell with 330-510 voxels along one axis; 1-7 frames x 1-4 atoms; coordinates on k/64, k/7, k/10, k/3 grids in [-2,3], samples forced onto 0, 1, '
           '-1, 63/64 ...) on pool lattices x resolutions {0.5,0.75,1,1.25,2,3}: grid size = floor(L/res) per axis (exact from the '
           'rational squared length; cases with L/res within 1e-9 of an integer skipped), voxel sum = frames x atoms, every sample in '
           'the voxel floor(coordinate x grid size) computed exactly (coordinates within 2^-50 of a non-representable boundary: '
